@@ -361,7 +361,7 @@ def read_mode_basis(filename, fmt=None):
                 modes = f[0].data.astype(f[0].data.dtype.newbyteorder('='))
 
                 old_shape = np.concatenate((modes.shape[:-grid.ndim], [grid.size]))
-                tree['transformation_matrix'] = modes.reshape(old_shape).T
+                tree['transformation_matrix'] = np.moveaxis(modes.reshape(old_shape), 0, -1)
 
             return ModeBasis.from_dict(tree)
     elif fmt == 'pickle':
@@ -405,8 +405,10 @@ def write_mode_basis(mode_basis, filename, fmt=None, overwrite=True):
         hdulist = fits.HDUList()
 
         if mode_basis.grid and mode_basis.grid.is_separated:
-            new_shape = np.concatenate(([-1], mode_basis.grid.shape))
-            modes = np.ascontiguousarray(mode_basis.to_dense().transformation_matrix.T.reshape(new_shape))
+            # The image has the axes (mode, tensor axes..., grid axes...).
+            T = mode_basis.to_dense().transformation_matrix
+            new_shape = np.concatenate((T.shape[-1:], T.shape[:-2], mode_basis.grid.shape)).astype('int')
+            modes = np.ascontiguousarray(np.moveaxis(T, -1, 0).reshape(new_shape))
 
             hdulist.append(fits.ImageHDU(np.asarray(modes)))
 
